@@ -59,7 +59,7 @@ def gen_case(rng, tier, idx):
             step = min(step, max(1, 7200 // max(1, n // 2)))
         rows = streams.make_rows(rng, n, "walk", step, rng.choice(["regular", "jitter", "gaps", "dups"]), tf_s, base=base, max_gap_buckets=10)
         jobs.append({"rows": rows, "tf": tf, "cut": rng.choice([n, n, 0, n // 2, 1]), "fill": rng.random() < 0.25,
-                     "entry": rng.choice(["manager", "indicator"]), "dst_day": dst})
+                     "entry": rng.choice(["manager", "indicator"]), "dst_day": dst, "ts_as_str": rng.random() < 0.25})
     return {"jobs": jobs}
 
 
@@ -87,6 +87,8 @@ def run_case(case):
         stats["streams_compared"] = stats.get("streams_compared", 0) + 1
         if job["dst_day"]:
             stats["dst_day_streams"] = stats.get("dst_day_streams", 0) + 1
+        if job.get("ts_as_str"):
+            stats["iso_string_timestamp_streams"] = stats.get("iso_string_timestamp_streams", 0) + 1
         per = {z: res[z]["buckets"][j] for z in zones}
         stats["zone_results_compared"] = stats.get("zone_results_compared", 0) + len(zones)
         ref_zone = per["UTC"]
